@@ -431,7 +431,7 @@ def run(rep, tier):
 
 
 def san_shards(tier):
-    return [("tsan", [(500 + i, 3, "tsan") for i in range(16)])]
+    return [("tsan", [(500 + i, 3, "tsan") for i in range(16)] + [(700 + i, 6, "tsan") for i in range(8)] + [(800 + i, 1, "tsan") for i in range(16)])]
 
 
 def replay(path):
